@@ -35,6 +35,7 @@ inductive Cond where
 inductive SStmt where
   | flat (s : RStmt)
   | skip                                          -- `{ }`
+  | forget                                        -- no code: the generator sets its flag belief to Unknown (stage 9)
   | seq (a b : SStmt)
   | ifThen (c : Cond) (t : SStmt)
   | ifElse (c : Cond) (t e : SStmt)
@@ -46,6 +47,15 @@ inductive SStmt where
   | ifBrk (c : Cond)                              -- `if (c) break;` without braces: one branch to the break label
   | ifCont (c : Cond)                             -- `if (c) continue;`
   deriving Repr, Inhabited
+
+/-- `s++` on a 16-bit variable (stage 9): `INC s ; BNE .ifendN ; INC s+1 ; .ifendN:` — the text the generator
+    emits is that of "low byte ++ ; if it became 0, high byte ++", with the flag belief the increment leaves -/
+def incW (s : String) : SStmt :=
+  .seq (.flat (.inc (.var s))) (.ifThen (.nottruth (.var s)) (.flat (.inc (.el s (.k 1)))))
+
+/-- `s--`: `LDA s ; BNE .ifendN ; DEC s+1 ; .ifendN: ; DEC s`, flags Unknown afterwards -/
+def decW (s : String) : SStmt :=
+  .seq (.ifThen (.nottruth (.var s)) (.flat (.dec (.el s (.k 1))))) (.seq (.flat (.dec (.var s))) .forget)
 
 /-! ### labels -/
 
@@ -279,6 +289,7 @@ abbrev LoopCtx := Option (Lbl × Lbl)
 def gen (lp : LoopCtx) (g : GState) : SStmt → List GLine × GState
   | .flat s => genFlat g s
   | .skip => ([], g)
+  | .forget => ([], { g with flags := none })
   | .brk => (match lp with | some (_, bl) => ([.jmp bl], g) | none => ([], g))
   | .cont => (match lp with | some (cl, _) => ([.jmp cl], g) | none => ([], g))
   -- `generate_if` with a bare `break` / `continue` as body: the counter is taken, the label is not used;
@@ -349,6 +360,7 @@ def CondOK : Cond → Bool
 def SInFragment : SStmt → Bool
   | .flat s => RInFragment s
   | .skip => true
+  | .forget => true
   | .seq a b => SInFragment a && SInFragment b
   | .ifThen c t => CondOK c && SInFragment t
   | .ifElse c t e => CondOK c && SInFragment t && SInFragment e
@@ -406,6 +418,7 @@ def sem (L : Layout) : Nat → SrcSt → SStmt → Option Out
   | 0, _, _ => none
   | _ + 1, m, .flat s => some (.norm, rspec L m s)
   | _ + 1, m, .skip => some (.norm, m)
+  | _ + 1, m, .forget => some (.norm, m)
   | _ + 1, m, .brk => some (.brk, m)
   | _ + 1, m, .cont => some (.cont, m)
   | _ + 1, m, .ifBrk c => some (if evalCond L m c then .brk else .norm, m)
